@@ -102,3 +102,12 @@ def board_calls(outcome):
         if e[0] == 'call' and e[1].startswith(BOARD + '::'):
             res.append((method(e[1]), e[2], e[3]))
     return res
+
+
+def strval(t):
+    """value behind reborrows of constant / indexed strings"""
+    while t[0] == 'ref':
+        t = t[1]
+        if t[0] in ('K', 'der'):
+            t = t[1]
+    return t
